@@ -25,7 +25,7 @@ from fractions import Fraction
 from math import gcd
 
 from vlib import harness
-from vlib.harness import time_limit, Timeout, CaseInvalid, SelfTestError
+from vlib.harness import Timeout, CaseInvalid, SelfTestError
 
 ID = 'C16'
 RULE = ("Systems of <=5 variables and <=8 rows  a.x op b  (op in >=,<=,>,<; coefficients -4..4, constants -8..8 in the "
@@ -77,6 +77,38 @@ BB_NODE_BUDGET = 300
 
 omega = simplex = simplex_strict = None
 _thy = {}
+
+
+_timeouts = [0]
+MAX_TIMEOUTS = 25
+
+
+def count_timeout():
+    _timeouts[0] += 1
+
+
+@contextlib.contextmanager
+def time_limit(seconds):
+    """Like harness.time_limit, but the alarm repeats every 0.25 s until the block is left: a single Timeout can be
+    lost when it is raised inside a garbage-collector callback ("Exception ignored in ..."), and the code under
+    test would then run on without any limit."""
+    def handler(signum, frame):
+        raise Timeout()
+    if _timeouts[0] >= 3:
+        # something makes the code under test diverge again and again (a mutant): do not spend the full limit each time
+        seconds = min(seconds, 2)
+    old = signal.signal(signal.SIGALRM, handler)
+    signal.setitimer(signal.ITIMER_REAL, seconds, 0.25)
+    try:
+        yield
+    finally:
+        while True:
+            try:
+                signal.setitimer(signal.ITIMER_REAL, 0)
+                break
+            except Timeout:
+                continue
+        signal.signal(signal.SIGALRM, old)
 
 
 # ---------------------------------------------------------------- exact evaluation (oracle side)
@@ -132,8 +164,7 @@ def z3_truth(nv, rows, is_int):
     """('sat', [Fraction..]) with a model validated by substitution, ('unsat', None) or ('unknown', None)."""
     import z3
     xs = [z3.Int('x%d' % i) if is_int else z3.Real('x%d' % i) for i in range(nv)]
-    s = z3.Solver()
-    s.set('timeout', 5000)
+    s = z3.Solver()      # no z3 timeout: it costs a timer thread (futex / sched_yield storm) per check()
     for a, op, b in rows:
         lhs = z3.Sum([z3.IntVal(c) * x for c, x in zip(a, xs)]) if is_int else \
             z3.Sum([z3.RealVal(c) * x for c, x in zip(a, xs)])
@@ -469,6 +500,8 @@ def guarded_bb(fn, seconds=20):
     _CountingDeque.popped = 0
     _CountingDeque.budget = BB_NODE_BUDGET
     old = signal.signal(signal.SIGALRM, handler)
+    if _timeouts[0] >= 3:
+        seconds = min(seconds, 2)
     signal.setitimer(signal.ITIMER_REAL, seconds, 0.05)
     try:
         try:
@@ -505,7 +538,7 @@ def run_ep(ep, nv, rows, enc):
     try:
         if ep == 'omega_matrix':
             mat = [list(a) + [-b] for a, _, b in rows]
-            with time_limit(20):
+            with time_limit(10):
                 res = omega.solve_matrix(mat)
             if not (isinstance(res, tuple) and len(res) == 2):
                 return ('bad', repr(res))
@@ -554,6 +587,8 @@ def run_ep(ep, nv, rows, enc):
             if st == 'exc':
                 return ('exc', type(r).__name__, str(r))
             if st != 'ok':
+                if st == 'timeout':
+                    count_timeout()
                 return (st,)
             if isinstance(r, dict):
                 return ('sat', {i: r.get(n, 0) for i, n in enumerate(names)}, None)
@@ -597,11 +632,14 @@ def run_ep(ep, nv, rows, enc):
             if st == 'exc':
                 return ('exc', type(r).__name__, str(r))
             if st != 'ok':
+                if st == 'timeout':
+                    count_timeout()
                 return (st,)
             if isinstance(r, ProofTerm):
                 return ('unsat', r, None)
             return ('bad', repr(r))
     except Timeout:
+        count_timeout()
         return ('timeout',)
     except CaseInvalid:
         raise
@@ -985,10 +1023,10 @@ def system_strategy(ep):
 
 
 # cases per entry point in the quick tier, and rough CPU cost of one case (ms) used to size and order the shards
-QUICK = {'omega_matrix': 8000, 'omega_hol': 800, 'simplex': 6000, 'strict': 4000, 'bb': 4000,
-         'simplex_hol': 800, 'simplex_macro': 600, 'strict_macro': 400, 'int_macro': 300}
-COST_MS = {'omega_matrix': 10, 'omega_hol': 250, 'simplex': 9, 'strict': 11, 'bb': 14,
-           'simplex_hol': 75, 'simplex_macro': 90, 'strict_macro': 170, 'int_macro': 160}
+QUICK = {'omega_matrix': 8000, 'omega_hol': 700, 'simplex': 6000, 'strict': 4000, 'bb': 4000,
+         'simplex_hol': 1000, 'simplex_macro': 500, 'strict_macro': 150, 'int_macro': 300}
+COST_MS = {'omega_matrix': 13, 'omega_hol': 190, 'simplex': 7, 'strict': 9, 'bb': 11,
+           'simplex_hol': 35, 'simplex_macro': 110, 'strict_macro': 950, 'int_macro': 215}
 
 
 def shards(tier):
@@ -1005,7 +1043,12 @@ def shards(tier):
 
 
 def run_shard(desc, seed, tier, H):
+    _timeouts[0] = 0
+
     def body(case):
+        if _timeouts[0] >= MAX_TIMEOUTS:
+            H.note('skipped_after_%d_timeouts' % MAX_TIMEOUTS)
+            return
         try:
             run_case(case, H)
         except CaseInvalid:
@@ -1028,6 +1071,11 @@ def setup():
         raise SelfTestError('prover.simplex.deque is not collections.deque any more')
     simplex.deque = _CountingDeque
     self_test()
+    # the library theories are millions of objects: keep the collector (and copy-on-write in the forked workers)
+    # away from them
+    import gc
+    gc.collect()
+    gc.freeze()
 
 
 def self_test():
